@@ -56,15 +56,16 @@ def generate(repo, emit, src, func_body):
 
     t = src('src/Table.c')
     tc = norm(func_body(t, r'static\s+int\s+Table_Cmp\s*\([^)]*\)\s*\{'))
+    head = '{intc;varitem0=Table_Iter_Init(self);varitem1=iter_init(obj);'
     walk = ('while(true){if(item0isTerminalanditem1isTerminal){return0;}if(item0isTerminal){return-1;}'
             'if(item1isTerminal){return1;}c=cmp(item0,item1);if(c<0){return-1;}if(c>0){return1;}'
             'c=cmp(Table_Get(self,item0),get(obj,item1));if(c<0){return-1;}if(c>0){return1;}'
             'item0=Table_Iter_Next(self,item0);item1=iter_next(obj,item1);}return0;}')
     lookup = ('if(len(self)islen(obj)){boolsame=true;foreach(keyinself){'
               'if(notmem(obj,key)orneq(Table_Get(self,key),get(obj,key))){same=false;break;}}if(same){return0;}}')
-    if tc == '{' + lookup + 'intc;varitem0=Table_Iter_Init(self);varitem1=iter_init(obj);' + walk:
+    if tc == head + lookup + walk:
         emit('table_cmp_by_lookup', 'Definition table_cmp_by_lookup : bool := true.   (* source: lookup loop, then the slot-order walk *)')
-    elif tc == '{intc;varitem0=Table_Iter_Init(self);varitem1=iter_init(obj);' + walk:
+    elif tc == head + walk:
         emit('table_cmp_by_lookup', 'Definition table_cmp_by_lookup : bool := false.   (* source: slot-order walk only *)')
     else:
         emit('table_cmp_by_lookup', None)
